@@ -1219,7 +1219,9 @@ func (s *Session) LoadPackages(pkg *PackageData) (*sources.Sources, error) {
 		}
 
 		// Store the built package in the cache for future use.
-		if s.buildCache != nil {
+		// A package that must never be served from the cache (the ephemeral package of
+		// BuildFiles, whose import path "main" is not unique) is not stored either.
+		if s.buildCache != nil && !pkg.SrcModTime.After(time.Now()) {
 			s.buildCache.Store(srcs, srcs.ImportPath, time.Now())
 		}
 	}
